@@ -61,7 +61,9 @@ def job_four_index():
         ctx.prove("post.eight-images-hold-the-value", z3.ForAll([a, b, c, d], z3.Implies(z3.And(rng, is_image), new == v)))
         ctx.prove("post.every-other-element-unchanged", z3.ForAll([a, b, c, d], z3.Implies(z3.And(rng, z3.Not(is_image)), new == A0(a, b, c, d))))
 
-    return verify(T, setup, post)
+    cfg = Config()
+    cfg.modifies_args = True  # modifies = {four_index_object}
+    return verify(T, setup, post, config=cfg)
 
 
 # ------------------------------------------------------------------------------------------------
